@@ -168,16 +168,29 @@ class Edit:
         self.s, self.e, self.new, self.rule, self.note, self.seq = s, e, new, rule, note, seq
 
 
-def inv_text(invariants, decreases=None, ensures=None):
+def inv_text(invariants, decreases=None, ensures=None, except_break=None):
     """invariants: list of "text" or ("LABELS", "text"); labels become `// [LABELS]` markers the engine reads back."""
-    txt = "\n    invariant\n"
+    txt = "\n"
+    if except_break:
+        txt += "    invariant_except_break\n"
+        for x in except_break:
+            if isinstance(x, tuple):
+                txt += "        %s, // [%s]\n" % (x[1], x[0])
+            else:
+                txt += "        %s,\n" % x
+    txt += "    invariant\n"
     for x in invariants:
         if isinstance(x, tuple):
             txt += "        %s, // [%s]\n" % (x[1], x[0])
         else:
             txt += "        %s,\n" % x
     if ensures:
-        txt += "    ensures\n" + "".join("        %s,\n" % x for x in ensures)
+        txt += "    ensures\n"
+        for x in ensures:
+            if isinstance(x, tuple):
+                txt += "        %s, // [%s]\n" % (x[1], x[0])
+            else:
+                txt += "        %s,\n" % x
     if decreases:
         txt += "    decreases %s\n" % decreases
     return txt
